@@ -3,6 +3,7 @@
 #include <stddef.h>
 #include <stdint.h>
 #include <string.h>
+void memxor(void *r, const void *a, size_t len) { uint8_t *pr = r; const uint8_t *pa = a; for (size_t i = 0; i < len; i++) pr[i] ^= pa[i]; }
 void gmssl_memxor(void *r, const void *a, const void *b, size_t len)
 { uint8_t *pr = r; const uint8_t *pa = a, *pb = b; for (size_t i = 0; i < len; i++) pr[i] = pa[i] ^ pb[i]; }
 int gmssl_secure_memcmp(const volatile void *in_a, const volatile void *in_b, size_t len)
